@@ -1,44 +1,85 @@
 //go:build verif
 
+// Harness for C18: drives juno's real migration runner and real migrations, the Lean model of
+// both, and the property oracle, on the same generated histories.
 package main
 
 import (
-	"context"
+	"encoding/json"
 	"fmt"
+	"os"
 	"strings"
 
-	"github.com/NethermindEth/juno/blockchain/networks"
-	"github.com/NethermindEth/juno/migration/blocktransactions"
-	"github.com/NethermindEth/juno/utils/log"
+	"verif/harness/lib"
 )
 
-func try(name string, c chainSpec) {
-	d, err := c.build()
-	if err != nil {
-		panic(err)
+type harness struct {
+	f   lib.Flags
+	res *lib.Result
+	r   *lib.RNG
+	drv *lib.Driver
+	bt  *btModel
+	// which variant of the code is under test (decided by the probes)
+	l9, unkLast, btOver, btSkip bool
+}
+
+func repeatInt(v, n int) []int {
+	out := make([]int, n)
+	for i := range out {
+		out[i] = v
 	}
-	fmt.Println(name, "before:", layoutOf(d, c.height()))
-	st, err := blocktransactions.Migrator{}.Migrate(context.Background(), newFaultStore(d), &networks.Sepolia, log.NewNopZapLogger())
-	fmt.Println(name, "state", st == nil, "err", err)
-	fmt.Println(name, "after: ", layoutOf(d, c.height()))
-	for b := uint64(0); b <= c.height(); b++ {
-		got := readBlockCurrent(d, c, b)
-		if !sameView(got, c.expectedView(b)) || got.Note != "" {
-			fmt.Println("  block", b, "count", c.Counts[b], "->", got.Err, len(got.Txs), got.Note)
-		}
-	}
+	return out
 }
 
 func main() {
-	counts := make([]int, 25)
-	for i := range counts {
-		counts[i] = 2
+	f := lib.ParseFlags()
+	res := lib.NewResult("a case is one run (or one start/resume step) of the real migration code on a generated " +
+		"database / history; non-trivial = distinct (database spec, interruption plan) whose run performed at least " +
+		"one commit or one migration call")
+	h := &harness{f: f, res: res, r: lib.NewRNG(f.Seed)}
+	drv, err := lib.StartDriver(f.Driver)
+	if err != nil {
+		res.Note("driver: %v", err)
+		lib.Finish(f, res)
 	}
-	try("hole", chainSpec{Seed: 1, Counts: counts, Layout: strings.Repeat("o", 10) + strings.Repeat("n", 10) + strings.Repeat("o", 5)})
-	counts2 := make([]int, 25)
-	for i := 13; i < 25; i++ {
-		counts2[i] = 1
+	defer drv.Close()
+	h.drv = drv
+	h.bt = &btModel{drv: drv, res: res}
+
+	if f.Replay != "" {
+		h.replay(f.Replay)
+		lib.Finish(f, res)
 	}
-	try("leading-empty", chainSpec{Seed: 1, Counts: counts2, Layout: strings.Repeat("o", 25)})
-	try("all-empty", chainSpec{Seed: 1, Counts: make([]int, 5), Layout: strings.Repeat("o", 5)})
+	h.probes()
+	h.blockTxAll()
+	lib.Finish(f, res)
 }
+
+func (h *harness) replay(path string) {
+	raw, err := os.ReadFile(path)
+	if err != nil {
+		h.res.Note("replay: %v", err)
+		return
+	}
+	var doc struct {
+		Sig    string          `json:"sig"`
+		Replay json.RawMessage `json:"replay"`
+	}
+	if err := json.Unmarshal(raw, &doc); err != nil {
+		h.res.Note("replay: %v", err)
+		return
+	}
+	h.probes()
+	if strings.HasPrefix(doc.Sig, "blocktx-") {
+		var rp btReplay
+		if err := json.Unmarshal(doc.Replay, &rp); err != nil {
+			h.res.Note("replay: %v", err)
+			return
+		}
+		h.blockTxImage(rp.Spec, "replay")
+		return
+	}
+	h.res.Note("replay: no replayer for sig %q", doc.Sig)
+}
+
+var _ = fmt.Sprintf
